@@ -81,6 +81,14 @@ def matchedUpdate (s t : Env) : Option Env :=
       | _, _ => true)
   then some (t ++ s) else none
 
+/-- `Scope.MatchedUpdate` BEFORE the repair: two bindings of a name were compared by their printed form
+(`str` stands for Go's `String()`) -/
+def matchedUpdateOld (str : V → String) (s t : Env) : Option Env :=
+  if s.all (fun nv => match t.lookup nv.1, s.lookup nv.1 with
+      | some w, some v => str w == str v
+      | _, _ => true)
+  then some (t ++ s) else none
+
 /-- sub-scope: every binding of `s` is a binding of `t` -/
 def Env.le (s t : Env) : Prop := ∀ x w, s.lookup x = some w → t.lookup x = some w
 /-- same bindings -/
